@@ -12,6 +12,8 @@ def jobs(ctx):
     roi2 = {"col": {"first": 2, "last": 5}, "row": {"first": 1, "last": 1}, "margins": [0, 1, 2, 0]}
     d(); d(nodata='nan'); d(nodata='inf', with_mask=False); d(nodata='-inf'); d(bands=2, nodata='nan'); d(bands=2, with_mask=False)
     d(with_grids=True, with_classif=True, roi=roi1); d(rows=2, cols=3, roi=roi2, nodata='nan')
+    # multi-band read through a ROI whose row and column offsets differ
+    d(rows=3, cols=4, bands=2, roi={"col": {"first": 2, "last": 3}, "row": {"first": 1, "last": 2}, "margins": [0, 1, 0, 0]}, with_mask=False)
     if not ctx.quick:
         for nd in ('sym', 'nan', 'inf'):
             for b in (1, 2, 3):
